@@ -882,3 +882,486 @@ def gen_jinjapins() -> typing.Tuple[bool, str]:
 
 
 GENERATORS['jinjapins'] = gen_jinjapins
+
+
+# =============================================================================================
+# 'jinjavendor' -> Generated/Gen_JinjaVendor.v : EVERY function of EVERY module of the vendored copy
+#   (src/nunavut/jinja/jinja2/*.py): shape digest (tools/translators/shape_pin.py normalisation: docstrings, comments,
+#   annotations dropped, locals alpha-renamed; plus the package rename nunavut.jinja.jinja2 -> jinja2 undone) per function /
+#   method, one digest per module for the code outside functions, the same digests of the stock Jinja2 in /venv as a structural
+#   reference (VERSION CAVEAT: 3.1.x, not the 2.11 commit recorded in /repo/subtree.json, which is not available offline),
+#   and the list of DOCUMENTED delta sites derived from the tree's own evidence: marker comments / docstrings / identifiers
+#   (auto-indent, autoindent, lineprefix), the package rename performed by /repo/embed_jinja.py, and the functions touched by
+#   the commits of /repo's git log of that directory after the initial snapshot.
+# =============================================================================================
+import io  # noqa: E402
+import tokenize  # noqa: E402
+
+from . import shape_pin  # noqa: E402
+
+OUT_VENDOR = os.path.join(gen.GEN_DIR, 'Gen_JinjaVendor.v')
+VENDOR_DIR = 'src/nunavut/jinja/jinja2'
+STOCK_DIR = '/venv/lib/python3.12/site-packages/jinja2'
+MARK_RE = re.compile(r'auto-?indent|lineprefix', re.I)
+
+
+class _Unrename(ast.NodeTransformer):
+    def visit_Constant(self, n):
+        if isinstance(n.value, str) and 'nunavut.jinja.' in n.value:
+            return ast.copy_location(ast.Constant(value=n.value.replace('nunavut.jinja.jinja2', 'jinja2').replace('nunavut.jinja.markupsafe', 'markupsafe')), n)
+        return n
+
+    def visit_ImportFrom(self, n):
+        if n.module and n.module.startswith('nunavut.jinja.'):
+            n.module = n.module.replace('nunavut.jinja.jinja2', 'jinja2').replace('nunavut.jinja.markupsafe', 'markupsafe')
+        return n
+
+
+def _fn_digest(fn: ast.AST) -> str:
+    import copy
+    f = copy.deepcopy(fn)
+    f.returns = None
+    f = _Unrename().visit(f)
+    f = shape_pin._Norm(f).visit(f)
+    for node in ast.walk(f):
+        if hasattr(node, 'type_comment'):
+            node.type_comment = None
+    f.name = 'f'
+    return _sha(ast.dump(f, annotate_fields=True, include_attributes=False))
+
+
+def _functions(mod: ast.Module) -> typing.List[typing.Tuple[str, ast.AST]]:
+    out = []
+
+    def walk(body, prefix):
+        for n in body:
+            if isinstance(n, (ast.FunctionDef, ast.AsyncFunctionDef)):
+                out.append((prefix + n.name, n))
+            elif isinstance(n, ast.ClassDef):
+                walk(n.body, prefix + n.name + '.')
+            elif isinstance(n, (ast.If, ast.Try)):     # conditionally defined functions (compat shims)
+                for blk in [n.body, getattr(n, 'orelse', []), getattr(n, 'finalbody', [])] + [h.body for h in getattr(n, 'handlers', [])]:
+                    walk(blk, prefix)
+    walk(mod.body, '')
+    return out
+
+
+def _module_rest_digest(mod: ast.Module) -> str:
+    """the module with every function body replaced by `pass` (class attributes, module-level statements, signatures stay)"""
+    import copy
+    m = _Unrename().visit(copy.deepcopy(mod))
+
+    class Strip(ast.NodeTransformer):
+        def visit_FunctionDef(self, n):
+            n.body = [ast.Pass()]
+            n.returns = None
+            for a in n.args.args + n.args.kwonlyargs + n.args.posonlyargs:
+                a.annotation = None
+            return n
+        visit_AsyncFunctionDef = visit_FunctionDef
+
+        def visit_Expr(self, n):
+            return None if isinstance(n.value, ast.Constant) and isinstance(n.value.value, str) else n
+    m = Strip().visit(m)
+    for n in ast.walk(m):
+        for f in ('body', 'orelse', 'finalbody'):
+            if isinstance(getattr(n, f, None), list) and f == 'body' and not n.body and not isinstance(n, ast.Module):
+                n.body = [ast.Pass()]
+    ast.fix_missing_locations(m)
+    return _sha(ast.dump(m, include_attributes=False))
+
+
+def _dedup(items):
+    seen, out = {}, []
+    for k, v in items:
+        seen[k] = seen.get(k, 0) + 1
+        out.append((k if seen[k] == 1 else '%s#%d' % (k, seen[k]), v))
+    return out
+
+
+def _module_table(path: str, modname: str):
+    with open(path, encoding='utf-8') as f:
+        src = f.read()
+    mod = ast.parse(src)
+    fns = _dedup(_functions(mod))
+    return src, mod, fns, [('%s:%s' % (modname, q), _fn_digest(n)) for q, n in fns] + [('%s:<module>' % modname, _module_rest_digest(mod))]
+
+
+def _enclosing(fns, lineno: int) -> str:
+    best = '<module>'
+    for q, n in fns:
+        if n.lineno <= lineno <= (n.end_lineno or n.lineno):
+            best = q
+    return best
+
+
+def _documented_sites(repo: str) -> typing.List[typing.Tuple[str, str]]:
+    """(module:qualname, evidence) for every function that the tree itself documents as modified"""
+    sites: typing.Dict[str, typing.Set[str]] = {}
+
+    def add(key, why):
+        sites.setdefault(key, set()).add(why)
+    vdir = os.path.join(repo, VENDOR_DIR)
+    for name in sorted(os.listdir(vdir)):
+        if not name.endswith('.py'):
+            continue
+        src, mod, fns, _ = _module_table(os.path.join(vdir, name), name[:-3])
+        for tok in tokenize.generate_tokens(io.StringIO(src).readline):
+            if tok.type == tokenize.COMMENT and MARK_RE.search(tok.string):
+                add('%s:%s' % (name[:-3], _enclosing(fns, tok.start[0])), 'marker comment')
+        for q, n in fns:
+            doc = n.body[0].value if (n.body and isinstance(n.body[0], ast.Expr) and isinstance(n.body[0].value, ast.Constant)) else None
+            for x in ast.walk(n):
+                if x is doc and not MARK_RE.search(str(x.value)):
+                    continue          # docstrings are not part of the digest; only a marker inside one counts as evidence
+                if isinstance(x, ast.Constant) and isinstance(x.value, str) and MARK_RE.search(x.value):
+                    add('%s:%s' % (name[:-3], q), 'marker string/docstring')
+                if isinstance(x, ast.Constant) and isinstance(x.value, str) and 'nunavut.jinja.' in x.value and not x.value.lstrip().startswith('>>>') \
+                        and '>>> from nunavut' not in x.value:
+                    add('%s:%s' % (name[:-3], q), 'package rename in a string')
+                if isinstance(x, (ast.Name, ast.FunctionDef)) and MARK_RE.search(getattr(x, 'id', getattr(x, 'name', ''))):
+                    add('%s:%s' % (name[:-3], q), 'marker identifier')
+        for x in mod.body:
+            if isinstance(x, ast.Assign):
+                for c in ast.walk(x):
+                    if isinstance(c, ast.Constant) and isinstance(c.value, str) and MARK_RE.search(c.value):
+                        add('%s:<module>' % name[:-3], 'marker string at module level')
+    # git log of the directory: every commit after the initial snapshot documents itself
+    try:
+        log = subprocess.run(['git', '-C', repo, 'log', '--format=%H', '--', VENDOR_DIR], stdout=subprocess.PIPE, stderr=subprocess.DEVNULL, text=True, timeout=60).stdout.split()
+    except Exception:
+        log = []
+    for commit in log[:-1]:
+        d = subprocess.run(['git', '-C', repo, 'diff', '-U0', commit + '^', commit, '--', VENDOR_DIR], stdout=subprocess.PIPE, stderr=subprocess.DEVNULL, text=True, timeout=60).stdout
+        cur = None
+        for line in d.splitlines():
+            if line.startswith('+++ b/'):
+                cur = line[6:]
+            m = re.match(r'@@ -\d+(?:,\d+)? \+(\d+)(?:,(\d+))? @@', line)
+            if m and cur and cur.endswith('.py'):
+                blob = subprocess.run(['git', '-C', repo, 'show', '%s:%s' % (commit, cur)], stdout=subprocess.PIPE, stderr=subprocess.DEVNULL, text=True, timeout=60).stdout
+                fns = _dedup(_functions(ast.parse(blob)))
+                start, cnt = int(m.group(1)), int(m.group(2) or 1)
+                for ln in range(start, start + max(cnt, 1)):
+                    add('%s:%s' % (os.path.basename(cur)[:-3], _enclosing(fns, ln)), 'git ' + commit[:7])
+    return sorted((k, ', '.join(sorted(v))) for k, v in sites.items())
+
+
+def vendor_tables(repo: str):
+    bund, stock = [], {}
+    vdir = os.path.join(repo, VENDOR_DIR)
+    for name in sorted(os.listdir(vdir)):
+        if name.endswith('.py'):
+            bund += _module_table(os.path.join(vdir, name), name[:-3])[3]
+            sp = os.path.join(STOCK_DIR, name)
+            if os.path.exists(sp):
+                stock.update(_module_table(sp, name[:-3])[3])
+    return bund, stock
+
+
+def gen_jinjavendor() -> typing.Tuple[bool, str]:
+    head = gen.HEADER % ('every module of %s, %s and the git log of that directory' % (VENDOR_DIR, STOCK_DIR)) + 'From Verif Require Import Str.\nOpen Scope N_scope.\n\n'
+    try:
+        bund, stock = vendor_tables(gen.REPO)
+        docs = _documented_sites(gen.REPO)
+        parts = [_pairs('vendored_digests', bund),
+                 _pairs('stock31_digests', [(k, stock[k]) for k, _ in bund if k in stock]),
+                 _pairs('documented_sites', docs)]
+    except (Unsupported, OSError, SyntaxError, ValueError, TypeError, KeyError, tokenize.TokenError) as ex:
+        gen.write_if_changed(OUT_VENDOR, head + '(* translator failed closed: %s *)\n' % str(ex).replace('*)', '* )').replace('(*', '( *'))
+        return False, 'C19 vendored-copy translator failed closed: %s' % ex
+    gen.write_if_changed(OUT_VENDOR, head + '\n'.join(parts))
+    return True, 'ok'
+
+
+GENERATORS['jinjavendor'] = gen_jinjavendor
+
+
+def update_vendor_pins() -> None:
+    """development-time only: (re)writes coq/theories/Gen/JinjaVendorPins.v from the current tree; every changed line of that
+    file is an edit of the vendored copy that must be classified in its header comment"""
+    bund, _stock = vendor_tables(gen.REPO)
+    docs = _documented_sites(gen.REPO)
+    out = os.path.join(gen.VERIF, 'coq', 'theories', 'Gen', 'JinjaVendorPins.v')
+    with open(out, 'w', encoding='utf-8') as f:
+        f.write("""(* C19: committed shape-digest table of EVERY function of the vendored Jinja2 (src/nunavut/jinja/jinja2/*.py, 27 modules) and
+   the committed list of DOCUMENTED deltas.  Regenerate with `python -m tools.translators.gen_c19 --update-vendor-pins` ONLY
+   when an edit of the vendored copy has been reviewed; classify it here:
+     documented-delta : listed in `documented_delta_keys` (must then also be derivable from the tree's own evidence, see
+                        Gen_JinjaVendor.documented_sites: marker comment/docstring/identifier, package rename, git log);
+     neutral          : any other digest change (refactoring without behavioural effect) -- say so in the commit message.
+   Baseline = the vendored tree at /repo HEAD 6038635 (upstream pallets/jinja commit 7e417c5c, per /repo/subtree.json, is NOT
+   available offline: digests cannot be compared with it; Gen_JinjaVendor.stock31_digests is a 3.1.x structural reference). *)
+From Coq Require Import String.
+From Verif Require Export JinjaRules.
+Open Scope N_scope.
+
+Definition documented_delta_keys : list str :=
+ [%s].
+
+Definition expected_vendored : list (str * str) :=
+ [%s].
+""" % ('; '.join('s2l "%s"' % k for k, _ in docs), ';\n  '.join('(s2l "%s", s2l "%s")' % kv for kv in bund)))
+    print('wrote', out, len(bund), 'entries,', len(docs), 'documented deltas')
+
+
+if __name__ == '__main__':
+    import sys as _sys
+    if '--update-vendor-pins' in _sys.argv:
+        update_vendor_pins()
+
+
+# =============================================================================================
+# 'jinjarx' -> Generated/Gen_JinjaRx.v : the ROOT rule (and the comment / raw end rules) of the bundled lexer for EVERY listed
+# option combination, parsed into the extended regex AST of Gen/JinjaRx.v (multi-line ^, (?!..), (?<=[..]), \S in classes).
+# Fail closed outside that syntax.
+# =============================================================================================
+OUT_RX = os.path.join(gen.GEN_DIR, 'Gen_JinjaRx.v')
+
+
+class _RxP:
+    def __init__(self, s):
+        self.s, self.i = s, 0
+
+    def peek(self, n=1):
+        return self.s[self.i:self.i + n]
+
+    def eat(self, t=None):
+        if t is not None:
+            if not self.s.startswith(t, self.i):
+                raise Unsupported('rx: expected %r at %d in %r' % (t, self.i, self.s))
+            self.i += len(t)
+            return t
+        c = self.s[self.i]
+        self.i += 1
+        return c
+
+
+_RX_ESC = {'n': 10, 'r': 13, 't': 9, 'f': 12, 'v': 11}
+
+
+def _rx_cls(neg=False, ranges=(), space=False, nonspace=False, digit=False, word=False):
+    return ('cls', neg, list(ranges), space, nonspace, digit, word)
+
+
+def _rx_escape(p):
+    c = p.eat()
+    if c in _RX_ESC:
+        return ('chr', _RX_ESC[c])
+    if c in 'sSdw':
+        return ('named', c)
+    if not c.isalnum():
+        return ('chr', ord(c))
+    raise Unsupported('rx: escape \\%s' % c)
+
+
+def _rx_class(p):
+    neg = False
+    if p.peek() == '^':
+        p.eat()
+        neg = True
+    ranges, flags, first = [], set(), True
+    while True:
+        c = p.peek()
+        if c == '':
+            raise Unsupported('rx: unterminated class')
+        if c == ']' and not first:
+            p.eat()
+            break
+        first = False
+        if c == '\\':
+            p.eat()
+            k = _rx_escape(p)
+            if k[0] == 'named':
+                flags.add(k[1])
+                continue
+            lo = k[1]
+        else:
+            lo = ord(p.eat())
+        if p.peek() == '-' and p.peek(2) != '-]':
+            raise Unsupported('rx: class ranges are not used by the lexer rules')
+        ranges.append((lo, lo))
+    return _rx_cls(neg, ranges, 's' in flags, 'S' in flags, 'd' in flags, 'w' in flags)
+
+
+def _rx_nullable(r):
+    t = r[0]
+    if t in ('eps', 'bolm', 'notahead', 'behind', 'star'):
+        return True
+    if t == 'cls':
+        return False
+    if t == 'seq':
+        return _rx_nullable(r[1]) and _rx_nullable(r[2])
+    return _rx_nullable(r[1]) or _rx_nullable(r[2])
+
+
+def _rx_atom(p):
+    c = p.eat()
+    if c == '(':
+        if p.peek(2) == '?:':
+            p.eat('?:')
+            r = _rx_alt(p)
+        elif p.peek(2) == '?!':
+            p.eat('?!')
+            r = ('notahead', _rx_alt(p))
+        elif p.peek(3) == '?<=':
+            p.eat('?<=')
+            a = _rx_atom(p)
+            if a[0] != 'cls':
+                raise Unsupported('rx: lookbehind of more than one character class')
+            r = ('behind', a)
+        elif p.peek() == '?':
+            raise Unsupported('rx: group extension (%s' % p.peek(3))
+        else:
+            r = _rx_alt(p)
+        p.eat(')')
+        return r
+    if c == '[':
+        return _rx_class(p)
+    if c == '\\':
+        k = _rx_escape(p)
+        if k[0] == 'named':
+            return _rx_cls(space=k[1] == 's', nonspace=k[1] == 'S', digit=k[1] == 'd', word=k[1] == 'w')
+        return _rx_cls(ranges=[(k[1], k[1])])
+    if c == '^':
+        return ('bolm',)
+    if c in '.$*+?{':
+        raise Unsupported('rx: metacharacter %r' % c)
+    return _rx_cls(ranges=[(ord(c), ord(c))])
+
+
+def _rx_seq(p):
+    items = []
+    while p.peek() not in ('', '|', ')'):
+        a = _rx_atom(p)
+        q = p.peek()
+        if q in ('*', '+', '?'):
+            p.eat()
+            if p.peek() in ('?', '+', '*'):
+                raise Unsupported('rx: lazy/possessive quantifier')
+            if q in '*+' and _rx_nullable(a):
+                raise Unsupported('rx: repetition of a nullable body')
+            a = ('star', a) if q == '*' else (('seq', a, ('star', a)) if q == '+' else ('alt', a, ('eps',)))
+        elif q == '{':
+            raise Unsupported('rx: counted repetition')
+        items.append(a)
+    if not items:
+        return ('eps',)
+    r = items[-1]
+    for x in reversed(items[:-1]):
+        r = ('seq', x, r)
+    return r
+
+
+def _rx_alt(p):
+    alts = [_rx_seq(p)]
+    while p.peek() == '|':
+        p.eat()
+        alts.append(_rx_seq(p))
+    r = alts[-1]
+    for x in reversed(alts[:-1]):
+        r = ('alt', x, r)
+    return r
+
+
+def rx_parse(pattern: str):
+    p = _RxP(pattern)
+    r = _rx_alt(p)
+    if p.i != len(pattern):
+        raise Unsupported('rx: trailing input at %d in %r' % (p.i, pattern))
+    return r
+
+
+def rx_to_coq(r) -> str:
+    t = r[0]
+    if t == 'eps':
+        return 'XEps'
+    if t == 'bolm':
+        return 'XBolM'
+    if t == 'cls':
+        _, neg, ranges, sp, nsp, dg, wd = r
+        b = lambda x: 'true' if x else 'false'   # noqa: E731
+        return ('(XCls {| x_neg := %s; x_ranges := [%s]%%N; x_space := %s; x_nonspace := %s; x_digit := %s; x_word := %s |})'
+                % (b(neg), '; '.join('(%d, %d)' % x for x in ranges), b(sp), b(nsp), b(dg), b(wd)))
+    if t == 'behind':
+        return '(XBehind %s)' % rx_to_coq(r[1])[6:-1]
+    if t == 'notahead':
+        return '(XNotAhead %s)' % rx_to_coq(r[1])
+    if t == 'star':
+        return '(XStar %s)' % rx_to_coq(r[1])
+    return '(%s %s %s)' % ('XSeq' if t == 'seq' else 'XAlt', rx_to_coq(r[1]), rx_to_coq(r[2]))
+
+
+def _split_named_alts(pattern: str):
+    head, tail = '(.*?)(?:', ')'
+    if not (pattern.startswith(head) and pattern.endswith(tail)):
+        raise Unsupported('root pattern does not have the form (.*?)(?:...)')
+    inner = pattern[len(head):-len(tail)]
+    parts, depth, cur, i, in_cls = [], 0, '', 0, False
+    while i < len(inner):
+        ch = inner[i]
+        if ch == '\\':
+            cur += inner[i:i + 2]
+            i += 2
+            continue
+        if in_cls:
+            in_cls = ch != ']'
+        elif ch == '[':
+            in_cls = True
+        elif ch == '(':
+            depth += 1
+        elif ch == ')':
+            depth -= 1
+        elif ch == '|' and depth == 0:
+            parts.append(cur)
+            cur = ''
+            i += 1
+            continue
+        cur += ch
+        i += 1
+    parts.append(cur)
+    out = []
+    for part in parts:
+        m = re.fullmatch(r'\(\?P<([a-z_]+)>(.*)\)', part, flags=re.S)
+        if not m:
+            raise Unsupported('root alternative is not a named group: %r' % part)
+        out.append((m.group(1), m.group(2)))
+    return out
+
+
+def gen_jinjarx() -> typing.Tuple[bool, str]:
+    head = gen.HEADER % ('the live rule tables of %s for %d option combinations' % (LEXER, len(COMBOS))) + 'From Verif Require Import JinjaRx.\nOpen Scope N_scope.\n\n'
+    try:
+        env = dict(os.environ)
+        env['PYTHONPATH'] = os.path.join(gen.REPO, 'src')
+        env['PYTHONDONTWRITEBYTECODE'] = '1'
+        p = subprocess.run(['/venv/bin/python', '-c', RULES_SNIPPET, json.dumps(COMBOS)], env=env, stdout=subprocess.PIPE, stderr=subprocess.PIPE, timeout=120, text=True)
+        try:
+            res = json.loads(p.stdout)
+        except Exception:
+            raise Unsupported('could not obtain the live rule tables: %s' % p.stderr[-400:])
+        roots, cends, rends = [], [], []
+        for r in res:
+            tab = dict((st, rules) for st, rules in r['bundled'])
+            root = tab['root'][0][0]
+            if root.startswith('sha256:'):
+                raise Unsupported('root pattern too long to be exported')
+            alts = _split_named_alts(root)
+            roots.append(' [%s]' % ';\n  '.join('(* %s *)\n  (%s, %s)' % (b.replace('*)', '* )').replace('(*', '( *'), _coq_str(n), rx_to_coq(rx_parse(b))) for n, b in alts))
+            for state, acc in (('comment_begin', cends), ('raw_begin', rends)):
+                pat = tab[state][0][0]
+                if not (pat.startswith('(.*?)(') and pat.endswith(')')):
+                    raise Unsupported('%s rule is not (.*?)(...)' % state)
+                acc.append(' %s' % rx_to_coq(rx_parse(pat[6:-1])))
+        parts = ['(* option combinations: %s *)\n' % json.dumps(COMBOS).replace('*)', '* )').replace('(*', '( *'),
+                 'Definition root_rules_x : list xrules :=\n [\n%s\n ].\n' % ';\n'.join(roots),
+                 'Definition comment_end_x : list rx :=\n [\n%s\n ].\n' % ';\n'.join(cends),
+                 'Definition raw_end_x : list rx :=\n [\n%s\n ].\n' % ';\n'.join(rends)]
+    except (Unsupported, OSError, ValueError, KeyError, TypeError, IndexError) as ex:
+        gen.write_if_changed(OUT_RX, head + '(* translator failed closed: %s *)\n' % str(ex).replace('*)', '* )').replace('(*', '( *'))
+        return False, 'C19 rx translator failed closed: %s' % ex
+    gen.write_if_changed(OUT_RX, head + '\n'.join(parts))
+    return True, 'ok'
+
+
+GENERATORS['jinjarx'] = gen_jinjarx
